@@ -857,8 +857,13 @@ def run(ctx):
             grad_chains = [["Gen_HyperGrad_%s.v" % n for n in iso]]
         # laws with direction invariants (HolzapfelOgden): composite chain rule proved term by term of W (thorough tier)
         termwise = [n for n in M["laws"] if n not in iso] if ctx.tier == "thorough" else []
+        term_chains = []
         for n in termwise:
             texts["Gen_HyperGradT_%s.v" % n] = H.emit_grad_termwise(M, M["laws"][n])[0]
+            term_chains.append(["Gen_HyperGradT_%s.v" % n])
+            for i, rows in enumerate(((0, 1), (2, 3), (4, 5))):
+                texts["Gen_HyperTanT_%s_%d.v" % (n, i)] = H.emit_tangent_termwise(M, M["laws"][n], rows=rows)
+                term_chains.append(["Gen_HyperTanT_%s_%d.v" % (n, i)])
         for n, L in M["laws"].items():
             texts["Gen_Law_%s.v" % n] = H.emit_law_thms(L)
     except (TranslateError, SyntaxError, OSError, RecursionError) as ex:
@@ -948,7 +953,8 @@ def run(ctx):
     # C18_tac, C18_kinematics, C18_energy, C18_InvDefs, C18_pdderive, C18_gradtac are static (independent of the repo):
     # they live in coq/model and are built once by ensure_static (logical path EFModel)
     ctx.copy_props("C18/C18_invariants.v", "C18/C18_gonzalez.v", "C18/C18_element.v", "C18/C18_element_energy.v")
-    r0 = ctx.coq(["Gen_HyperLaws.v", "Gen_HyperComp.v"], timeout=300)
+    # the per-invariant tables of the termwise laws are needed by several parallel chains: compile them first
+    r0 = ctx.coq(["Gen_HyperLaws.v", "Gen_HyperComp.v"] + ["Gen_Law_%s.v" % n for n in termwise], timeout=900)
     chains = [["Gen_HyperInv.v", "C18_invariants.v"]]
     if energy_ok:
         chains.append(["Gen_Gonzalez.v", "C18_gonzalez.v"] + (["Gen_De.v", "C18_element.v", "C18_element_energy.v"] if de_ok else []))
@@ -957,15 +963,15 @@ def run(ctx):
     if NC is not None and r0.ok:
         chains.append(["Gen_NewtonCoefs.v"])
     if r0.ok:
-        chains += [["Gen_Law_%s.v" % n] + (["Gen_HyperGradT_%s.v" % n] if n in termwise else []) for n in laws] + [["Gen_HyperRef.v"]]
+        chains += [["Gen_Law_%s.v" % n] for n in laws if n not in termwise] + term_chains + [["Gen_HyperRef.v"]]
         chains += grad_chains
     rcc = ctx.coq(["Gen_CC_defs.v"], timeout=300, count=False) if cc_files else None
     if rcc is not None and rcc.ok:
         chains += [[f] for f in cc_files]
     # longest chains first (HolzapfelOgden tables, kinematics + reference state + element, Clenshaw-Curtis sums)
-    weight = lambda fs: -sum({"Gen_Law_HolzapfelOgden.v": 45, "C18_kinematics.v": 35, "Gen_HyperRef.v": 12, "Gen_CC_sum.v": 47, "C18_element.v": 8}.get(f, (200 if f.startswith("Gen_HyperGradT") else 100 if ctx.tier == "thorough" and f.startswith("Gen_HyperGrad") else 12 if f.startswith("Gen_HyperGrad") else 6)) for f in fs)
+    weight = lambda fs: -sum({"Gen_Law_HolzapfelOgden.v": 45, "C18_kinematics.v": 35, "Gen_HyperRef.v": 12, "Gen_CC_sum.v": 47, "C18_element.v": 8}.get(f, (200 if f.startswith("Gen_HyperGradT") or f.startswith("Gen_HyperTanT") else 100 if ctx.tier == "thorough" and f.startswith("Gen_HyperGrad") else 12 if f.startswith("Gen_HyperGrad") else 6)) for f in fs)
     chains.sort(key=weight)
-    with ThreadPoolExecutor(max_workers=min(4, os.cpu_count() or 2)) as ex:
+    with ThreadPoolExecutor(max_workers=min(6 if ctx.tier == "thorough" else 4, os.cpu_count() or 2)) as ex:
         results = list(ex.map(lambda fs: ctx.coq(fs, timeout=900), chains))
     allres = [r0] + ([rcc] if rcc is not None else []) + results
     proof_ok = all(r.ok for r in allres)
